@@ -110,7 +110,9 @@ func run(prop, tier, repo, verif string, verbose, noEvidence bool) (code int) {
 			fmt.Fprintln(os.Stderr, "note:", n)
 		}
 		for _, rr := range ps.Rules {
-			res := rr.Run(p)
+			rules.SetProg(p)
+			rules.SetProg(p)
+		res := rr.Run(p)
 			for i := range res.Findings {
 				res.Findings[i].Arch = arch
 			}
@@ -269,6 +271,7 @@ func explain(args []string) int {
 		return 1
 	}
 	for _, rr := range ps.Rules {
+		rules.SetProg(p)
 		res := rr.Run(p)
 		for _, f := range res.Findings {
 			if f.Key == rec.Finding.Key {
